@@ -9,14 +9,28 @@ def load (pid):
     return importlib.import_module ('pmv.props.' + pid.lower ())
 # end def load
 
+class Case_Timeout (BaseException):
+    pass
+
+def _alarm (signum, frame):
+    raise Case_Timeout ()
+
 def run_case (mod, spec):
     """ Run one case through the property's check, fold broken contracts
-        in, classify escaped exceptions.
+        in, classify escaped exceptions. A per-case wall-clock watchdog
+        turns a case that does not finish into an *inconclusive* case
+        (never into a verdict).
     """
+    import signal
     instrument.reset_case ()
     t0 = time.time ()
+    limit = getattr (mod, 'CASE_TIMEOUT', 600)
+    signal.signal (signal.SIGALRM, _alarm)
+    signal.setitimer (signal.ITIMER_REAL, limit)
     try:
         res = mod.check (spec)
+    except Case_Timeout:
+        res = dict (status = 'inconclusive', reason = 'case-watchdog %ds' % limit)
     except common.Repo_Crash as e:
         res = dict \
             ( status = 'violation', sig = 'crash', nontrivial = True
@@ -42,6 +56,8 @@ def run_case (mod, spec):
                 ( status = 'inconclusive', reason = 'harness-error'
                 , tb = ''.join (traceback.format_exception (e)) [-3000:]
                 )
+    finally:
+        signal.setitimer (signal.ITIMER_REAL, 0)
     res.setdefault ('violations', [])
     res.setdefault ('known', [])
     for rec in instrument.take_records ():
@@ -64,6 +80,10 @@ def main ():
     common.repo ()
     instrument.install ()
     mod = load (pid)
+    gb = getattr (mod, 'MEM_LIMIT_GB', None)
+    if gb:
+        import resource
+        resource.setrlimit (resource.RLIMIT_AS, (int (gb * 2 ** 30), int (gb * 2 ** 30)))
     cases = mod.plan (tier, seed)
     mine  = cases [shard::nshards]
     with open (out, 'w') as f:
